@@ -3,21 +3,22 @@
 # replay input; an input becomes a corpus file (corpus/<Cxx>/<seed>.json) only if its replay FAILS with the change and
 # PASSES on the unchanged tree.  Uses /repo: run nothing else against /repo meanwhile.
 set -u
+R=${O2P_REPO:-/repo}   # a clean scratch worktree can stand in for /repo (the harness reads O2P_REPO too)
 mkdir -p /tmp/harvest
 LIST="${@:-$(ls /verif/seeded)}"
 for name in $LIST; do
   d=/verif/seeded/$name
   prop=$(/venv/bin/python -c "import json; print(json.load(open('$d/meta.json'))['property'])" 2>/dev/null | tail -1)
-  cd /repo || exit 2
-  [ -n "$(git status --porcelain)" ] && { echo "/repo not clean"; exit 2; }
+  cd $R || exit 2
+  [ -n "$(git status --porcelain)" ] && { echo "$R not clean"; exit 2; }
   git apply "$d/patch.diff" || { echo "$name patch does not apply"; continue; }
   cd /verif
   out=$(/venv/bin/python harness/check.py "$prop" --tier quick 2>&1 | grep -a "^VIOLATION" | grep -av "no-failing-input-found" | grep -av "a past failure fails again" | head -1)
   f=$(echo "$out" | grep -ao "replay=[^ ]*" | cut -d= -f2)
-  if [ -z "$f" ] || [ ! -f "$f" ]; then echo "$name $prop: no concrete replay"; git -C /repo checkout -- .; git -C /repo clean -fdq; continue; fi
+  if [ -z "$f" ] || [ ! -f "$f" ]; then echo "$name $prop: no concrete replay"; git -C $R checkout -- .; git -C $R clean -fdq; continue; fi
   cp "$f" /tmp/harvest/$name.json
   /venv/bin/python harness/check.py "$prop" --replay /tmp/harvest/$name.json >/dev/null 2>&1; rc_bad=$?
-  git -C /repo checkout -- .; git -C /repo clean -fdq
+  git -C $R checkout -- .; git -C $R clean -fdq
   /venv/bin/python harness/check.py "$prop" --replay /tmp/harvest/$name.json >/dev/null 2>&1; rc_good=$?
   if [ "$rc_bad" = "1" ] && [ "$rc_good" = "0" ]; then mkdir -p /verif/corpus/$prop; cp /tmp/harvest/$name.json /verif/corpus/$prop/$name.json; echo "$name $prop: kept"; else echo "$name $prop: replay not discriminating (with change rc=$rc_bad, clean rc=$rc_good)"; fi
 done
